@@ -563,6 +563,22 @@ func (m *Model) RunValSiblings(s *Sink, rule string) {
 		if c.typ == "Obj" {
 			want = "a=val-a;b=val-b;c=val-c;"
 		}
+		if c.typ == "Obj" {
+			// an object without properties is still an object: an empty map, not nil
+			k0 := "object.(*Obj).Val|an empty object converts to an empty map"
+			empty := &iStruct{typ: ct, fields: map[int]any{fi: &iMap{vals: map[string]any{}, kval: map[string]constant.Value{}}}}
+			ip0 := &Interp{m: m}
+			r0, known0 := ip0.Run(fn, []any{empty})
+			mp0, isMap := r0.(*iMap)
+			switch {
+			case ip0.stuck != "":
+				s.Undecided(rule, k0, m.Pos(fn.Pos()), "%s could not be evaluated on an empty object (%s)", fnKey(fn), ip0.stuck)
+			case known0 && isMap && mp0.vals != nil && len(mp0.vals) == 0:
+				s.OK(rule, k0, m.Pos(fn.Pos()), "case evaluation: the result is a freshly made map without entries")
+			default:
+				s.Violation(rule, k0, m.Pos(fn.Pos()), "%s on an object without properties does not yield an empty map (it yields %s): a custom function receives nil instead of map[string]any{}, and the value renders differently when handed back", fnKey(fn), ifaceDesc(r0))
+			}
+		}
 		switch {
 		case ip.stuck != "" || !known || !okRes:
 			s.Undecided(rule, key, m.Pos(fn.Pos()), "%s could not be evaluated on an abstract container (%s)", fnKey(fn), ip.stuck)
@@ -573,4 +589,18 @@ func (m *Model) RunValSiblings(s *Sink, rule string) {
 		}
 	}
 	_ = token.ADD
+}
+
+func ifaceDesc(v any) string {
+	switch t := v.(type) {
+	case nil:
+		return "an unknown value"
+	case iNil:
+		return "nil"
+	case *iMap:
+		return fmt.Sprintf("a map of %d entries", len(t.vals))
+	case constant.Value:
+		return t.ExactString()
+	}
+	return fmt.Sprintf("%T", v)
 }
